@@ -50,7 +50,7 @@ def source(sfx, p, with_inner=True, variant=0):
     """variant 1 = the 'other module': same class names, different fields."""
     S = "__" + sfx
     L = ["from utype import Schema, DataClass, Field, Options, Lax", "import utype",
-         "from typing import List, Dict, Tuple, Set, Optional, Any, Generator, Annotated",
+         "from typing import List, Dict, Tuple, Set, Optional, Any, Generator, Annotated, Union, Literal",
          "from sim.faults import Leaf, hook_point", "",
          "def fac_list():", "    hook_point('fac_list')", "    return [7]", "",
          "TEMPLATE = {'rows': [[0]], 'meta': {'tags': []}}", "",
@@ -76,6 +76,11 @@ def source(sfx, p, with_inner=True, variant=0):
           "    exd: int = Field(default=0, on_error='exclude', dependencies=['dep'])", "    dep: int = Field(required=False)",
           "    leaf: Optional[Leaf] = None", ""]
     L += [f"class FD{S}(Schema):", "    __options__ = Options(force_default=[5])", "    a: list", "    b: list", ""]
+    # a discriminated union over classes named by reference, one of which lacks the discriminator field: the declaration can
+    # only be refused at the first parse -- and then at every later one
+    L += [f"class Own{S}(Schema):", f"    pet: Union['Cat{S}', 'Dog{S}'] = Field(discriminator='kind', default=None)", "",
+          f"class Cat{S}(Schema):", "    kind: Literal['cat'] = 'cat'", "",
+          f"class Dog{S}(Schema):", "    name: str = ''", ""]
     L += ["@utype.parse", f"def f{S}(n: int, lst: List[int] = [1], dct: Dict[str, List[int]] = {{'k': [1]}}, leaf: Optional[Leaf] = None, *args: int, **kw: int):",
           "    return {'n': n, 'lst': lst, 'dct': dct, 'leaf': leaf, 'args': list(args), 'kw': kw}", ""]
     L += ["@utype.parse", f"def gen{S}(n: int, acc: List[int] = [0]) -> Generator[int, None, List[int]]:",
@@ -174,6 +179,8 @@ def generate(rng, tier):
                 ops.append({"op": "init", "cls": cls, "data": copy.deepcopy(ops[m]["data"]), "same_as": m})
             else:
                 ops.append({"op": "init", "cls": cls, "data": fill(rng.choice(INIT_TEMPLATES if cls == "A" else D_TEMPLATES))})
+        elif r < 0.42:
+            ops.append({"op": "init", "cls": "Own", "data": rng.choice([{"pet": {"kind": "cat"}}, {}, {"pet": {"name": "rex"}}])})
         elif r < 0.45:
             ops.append({"op": "init", "cls": "FD", "data": rng.choice([{}, {"a": [1]}, {"a": "zz", "b": [2]}])})
         elif r < 0.5:
